@@ -26,7 +26,7 @@ ORDER_CASES = {
 def _order(name, op, negop):
     cases = {k: {"value": v["value"], name: v["bound"]} for k, v in ORDER_CASES.items()}
 
-    @contract(F, "Constraints." + name, props=["C02"])
+    @contract(F, "Constraints." + name, props=["C02", "C01"])
     class _:
         __doc__ = "documented: value must be %s %s" % (op, name)
         self_model = "class:Constraints"
@@ -81,7 +81,7 @@ MEASURE = "measure(value)"
 def _length(name, param, rel, domain):
     cases = {k: dict(v, **{param: domain}) for k, v in LEN_CASES.items()}
 
-    @contract(F, "Constraints." + name, props=["C02"])
+    @contract(F, "Constraints." + name, props=["C02", "C01"])
     class _:
         self_model = "class:Constraints"
         locals()["cases"] = cases
@@ -132,7 +132,7 @@ class LAX_MAX_LENGTH:
 
 # --------------------------------------------------------------------------- const / enum / regex
 
-@contract(F, "Constraints.const", props=["C02"])
+@contract(F, "Constraints.const", props=["C02", "C01"])
 class CONST:
     result = "like:v"
     """documented: equal by == and of the same type (numeric int/float, int/Decimal pairs tolerated)"""
@@ -159,7 +159,7 @@ class LAX_CONST:
 _ENUM_U = "(value.value if isinst(value, Enum) else value)"
 
 
-@contract(F, "Constraints.enum", props=["C02"])
+@contract(F, "Constraints.enum", props=["C02", "C01"])
 class ENUM:
     """documented: the data must be within the range given by `enum` (an Enum member counts by its value)"""
     self_model = "class:Constraints"
@@ -196,7 +196,7 @@ class LAX_ENUM:
     assumes = ["lst is non-empty (an empty enum makes the lax form raise IndexError)"]
 
 
-@contract(F, "Constraints.regex", props=["C02"])
+@contract(F, "Constraints.regex", props=["C02", "C01"])
 class REGEX:
     """documented: full regex match of str(value)"""
     self_model = "class:Constraints"
@@ -208,7 +208,7 @@ class REGEX:
 
 # --------------------------------------------------------------------------- numbers
 
-@contract(F, "Constraints.multiple_of", props=["C02"])
+@contract(F, "Constraints.multiple_of", props=["C02", "C01"])
 class MULTIPLE_OF:
     result = "like:value"
     """documented: the number must be a multiple of `of`"""
@@ -239,7 +239,7 @@ DEC_CASES = {"Decimal": dict(value=DEC), "Decimal-inf": dict(value=DEC_INF), "De
              "int": dict(value=INT), "float": dict(value=FLOAT)}
 
 
-@contract(F, "Constraints._parse_decimal", props=["C02"])
+@contract(F, "Constraints._parse_decimal", props=["C02", "C01"])
 class PARSE_DECIMAL:
     """(digits, decimals) in the documented sense: significant digits without a leading integer zero,
     digits after the point"""
@@ -254,7 +254,7 @@ class PARSE_DECIMAL:
     assumes = ["Decimal(str(int)) is exact; Decimal(str(float)) has the digits of repr(float) (uninterpreted)"]
 
 
-@contract(F, "Constraints.max_digits", props=["C02"])
+@contract(F, "Constraints.max_digits", props=["C02", "C01"])
 class MAX_DIGITS:
     result = "like:value"
     self_model = "class:Constraints"
@@ -264,7 +264,7 @@ class MAX_DIGITS:
     only_raises = ["ValueError"]
 
 
-@contract(F, "Constraints.decimal_places", props=["C02"])
+@contract(F, "Constraints.decimal_places", props=["C02", "C01"])
 class DECIMAL_PLACES:
     result = "like:value"
     self_model = "class:Constraints"
@@ -306,7 +306,7 @@ _NODUP = "forall(len(%s), lambda i: forall(i, lambda j: not same(%s[j], %s[i])))
 _HASDUP = "exists(len(%s), lambda i: exists(i, lambda j: same(%s[j], %s[i])))"
 
 
-@contract(F, "Constraints.unique_items", props=["C02"])
+@contract(F, "Constraints.unique_items", props=["C02", "C01"])
 class UNIQUE_ITEMS:
     result = "like:value"
     self_model = "class:Constraints"
